@@ -169,6 +169,7 @@ mod model {
             let i = self.n; self.n += 1;
             at(&self.map.slots, i).map(|p| (&p.0, &p.1))
         }
+        fn size_hint(&self) -> (usize, Option<usize>) { let n = self.map.len - self.n; (n, Some(n)) }
     }
     impl<'a, K, V> IntoIterator for &'a BTreeMap<K, V> { type Item = (&'a K, &'a V); type IntoIter = BIter<'a, K, V>; fn into_iter(self) -> BIter<'a, K, V> { BIter { map: self, n: 0 } } }
     pub struct BIntoIter<K, V> { slots: [Option<(K, V)>; CAP], len: usize, n: usize }
@@ -288,6 +289,7 @@ mod model {
             self.n += 1;
             at(&self.map.slots, idx).map(|p| (&p.0, &p.1))
         }
+        fn size_hint(&self) -> (usize, Option<usize>) { let n = self.map.len - self.n; (n, Some(n)) }
     }
     impl<'a, K, V> IntoIterator for &'a HashMap<K, V> { type Item = (&'a K, &'a V); type IntoIter = HIter<'a, K, V>; fn into_iter(self) -> HIter<'a, K, V> { self.iter() } }
     pub struct HIntoIter<K, V> { slots: [Option<(K, V)>; CAP], len: usize, start: usize, n: usize }
@@ -359,6 +361,7 @@ mod model {
             self.n += 1;
             at(&self.set.slots, idx)
         }
+        fn size_hint(&self) -> (usize, Option<usize>) { let n = self.set.len - self.n; (n, Some(n)) }
     }
     impl<'a, T> IntoIterator for &'a HashSet<T> { type Item = &'a T; type IntoIter = SIter<'a, T>; fn into_iter(self) -> SIter<'a, T> { self.iter() } }
     pub struct SIntoIter<T> { slots: [Option<T>; CAP], len: usize, start: usize, n: usize }
@@ -446,6 +449,7 @@ mod model {
     impl<'a, T> Iterator for DIter<'a, T> {
         type Item = &'a T;
         fn next(&mut self) -> Option<&'a T> { if self.n >= self.d.len { return None; } let i = self.n; self.n += 1; self.d.get(i) }
+        fn size_hint(&self) -> (usize, Option<usize>) { let n = self.d.len - self.n; (n, Some(n)) }
     }
 
     // ------------------------------------------------------------------ serde (only where the file under test derives it)
